@@ -25,6 +25,13 @@ pub fn generate(g: &mut Gen, thorough: bool) {
         let upts = proj::points(&mut g.rng, &u, 6);
         let south = if g.rng.chance(1, 2) { " south" } else { "" };
         g.push(format!("S_C14\ttm\t{}\t{}\t{}", escape(&format!("utm zone={zone}{south}")), escape(&format!("butm zone={zone}{south}")), data_of(&upts)), "oracle-utm-butm", true);
+        // ... on the ellipsoid named, for either of them, and against the definitions they abbreviate
+        let e = &d.ellps;
+        let (u1, u2) = (format!("utm zone={zone}{south} ellps={e}"), format!("butm zone={zone}{south} ellps={e}"));
+        g.push(format!("S_C14\ttm\t{}\t{}\t{}", escape(&u1), escape(&u2), data_of(&upts)), "oracle-utm-butm-ellps", true);
+        let b2 = format!("btmerc lon_0={} k_0=0.9996 x_0=500000 y_0={} ellps={e}", 6 * zone as i64 - 183, if south.is_empty() { 0 } else { 10000000 });
+        g.push(format!("S_C14\ttm\t{}\t{}\t{}", escape(&u1), escape(&b2), data_of(&upts)), "oracle-utm-btmerc-ellps", true);
+        g.push(op_line("default", &[], &[], &u2, "apply", "F", &data_of(&upts)), "model-butm-ellps", true);
     }
     // operators against the ellipsoid's own methods
     for _ in 0..rounds {
